@@ -85,6 +85,9 @@ func checkC17(c *Ctx) {
 				if len(ev.Args) != 1 || ev.Args[0].Field == nil || fname(ev.Args[0].Field) != "lastRun" {
 					since = nil
 				}
+			case ev.Kind == pw.EvCall && ev.Role == "Std:time.Time.Sub" && len(ev.Args) == 1 && ev.Args[0].Field != nil && fname(ev.Args[0].Field) == "lastRun" &&
+				ev.Recv != nil && ev.Recv.Kind == pw.KCall && ev.Recv.Ev != nil && ev.Recv.Ev.Role == "Std:time.Now":
+				since = ev.Results[0] // time.Now().Sub(lastRun) is what time.Since(lastRun) is defined as
 			}
 		}
 		if len(p.Ret) != 1 {
